@@ -1,6 +1,7 @@
 import PyttbModel.Core.Codec
 import PyttbModel.Alg.GcpFg
 import PyttbModel.Generated.Handles
+import PyttbModel.Spec.GcpSampled
 open Lean Pyttb Pyttb.Codec
 namespace Pyttb.Driver
 namespace C12
@@ -134,7 +135,29 @@ def ops12 : List (String × Op) := [
     let w ← field j "w" >>= asRats
     let crng ← optNats j "crng"
     let (f, g) ← pickHandles j
-    .ok (exceptJ fgJ (estimate K subs xv w f g crng)))
+    .ok (exceptJ fgJ (estimate K subs xv w f g crng))),
+  -- the specification of the sampled estimator (Spec/GcpSampled.lean), executed: the weighted sample sum with
+  -- the correction range and its partial derivatives entry by entry (no rejection logic: a total function)
+  ("gcp_sampled_spec", fun j => do
+    let K ← field j "K" >>= asKtensor
+    let subs ← field j "subs" >>= asNatMat
+    let xv ← field j "xvals" >>= asRats
+    let w ← field j "w" >>= asRats
+    let crng ← optNats j "crng"
+    let (f, g) ← pickHandles j
+    .ok (fgJ ⟨f.map (sampledObjective K subs xv w crng), g.map (sampledGrad K subs xv w crng)⟩)),
+  -- the specification of a masked evaluation: which entries the mask keeps, whether it is a 0/1 array, and the
+  -- loss summed over the kept entries only
+  ("gcp_masked_spec", fun j => do
+    let K ← field j "K" >>= asKtensor
+    let X ← field j "X" >>= asDense
+    let W ← field j "W" >>= asDense
+    let name ← field j "handle" >>= asStr
+    match standIn name with
+    | none => .error s!"unknown stand-in handle {name}"
+    | some (f, _) =>
+      .ok (Json.mkObj [("F", ratJ (maskedObjective K X W f)), ("unmasked", natMatJ (unmasked W)),
+        ("isMask", Json.bool ((allSubs W.shape).all fun i => W.get i == 0 || W.get i == 1))]))
 ]
 
 end Pyttb.Driver
